@@ -14,9 +14,9 @@ Hypothesis HP : foam_params_ok P = true.
 Definition depth_ok (m : node) : Prop :=
   forall st, wf_node P st m = true -> (depth m <= length (fst (enc_node P st m)))%nat.
 
-Lemma args_depth row fm is_prog args : forall si st,
+Lemma args_depth row fm ub is_prog args : forall si st,
   Forall (arg_Q depth_ok) args ->
-  wf_args P (wf_node P) (enc_node P) row fm si args st = true ->
+  wf_args P (wf_node P) (enc_node P) row fm ub si args st = true ->
   (list_max (map (sub_depth depth) args) <=
    length (fst (enc_args P (enc_node P) row fm is_prog si args st)))%nat.
 Proof.
@@ -60,7 +60,7 @@ Proof.
   cbn [wf_node] in Hwf. destruct (info_of P tag) as [row|] eqn:EI; [|discriminate].
   rewrite !andb_true_iff in Hwf. destruct Hwf as (_ & H6).
   cbn [enc_node depth]. rewrite EI.
-  pose proof (args_depth row (tag_format P (Node tag args)) (tag =? t_Prog P) args 0%nat st IH H6) as Hd.
+  pose proof (args_depth row (tag_format P (Node tag args)) (tag =? t_Char P) (tag =? t_Prog P) args 0%nat st IH H6) as Hd.
   destruct (enc_args P (enc_node P) row _ _ 0 args st) as [b st']. cbn [fst] in *.
   rewrite !app_length. cbn [length put_byte]. lia.
 Qed.
